@@ -2,16 +2,25 @@
 from genlib import *
 
 LEAN_MODULES = ["MpirProofs.Props.C09Rootrem"]
-THEOREMS = ["Mpir.Rootrem.rootrem_basecase_spec", "Mpir.Rootrem.rootrem_basecase_spec_threshold"]
+THEOREMS = ["Mpir.Rootrem.rootrem_basecase_spec", "Mpir.Rootrem.rootrem_basecase_spec_threshold",
+            "Mpir.Rootrem.mpn_rootrem_newton_round_partial", "Mpir.Rootrem.mpn_rootrem_internal_round"]
 PINS = [("mpn/generic/rootrem_basecase.c", "mpn_rootrem_basecase"), ("mpn/generic/pow_1.c", "mpn_pow_1"),
         ("mpn/generic/rootrem.c", "mpn_rootrem"), ("mpn/generic/rootrem.c", "mpn_rootrem_internal")]
 TRUSTED = ["hand-written model lean/Mpir/Model/Rootrem.lean: mpn_rootrem_basecase at value + limb-count level "
            "(every value, every limb count a test reads, every branch and ASSERT_ALWAYS in source order; buffer capacities "
            "PP_ALLOC/EXTRA and their ASSERT_ALWAYS, carries inside the mpn kernels are not represented); mpn_pow_1, mpn_tdiv_qr, "
-           "mpn_addmul_1, mpn_divrem_1 enter by their value contracts (C02/C06 kernels)"]
+           "mpn_addmul_1, mpn_divrem_1 enter by their value contracts (C02/C06 kernels)",
+           "mpn_rootrem_internal and the mpn_rootrem dispatcher: value-level model (schedule sizes[], Newton round with the 2^b clamp, "
+           "correction loop with ASSERT_ALWAYS (c <= 1), approx flag, padded call); the limb surgery that inserts bits [kk, kk+b) "
+           "of U into the remainder (rootrem.c:274-297) is represented by its value"]
 ASSUMPTIONS = ["rootrem_basecase_spec is stated for operands below 2^32 bits (`bitLen U <= 2^32`): the test `un - pn == xn` of "
                "rootrem_basecase.c:163 recognises a quotient with xn+1 limbs only while nth^2 is small against B^xn; for "
                "astronomically large nth (operands of more than 2^32 bits) the model leaves this case open",
+               "mpn_rootrem_internal: one Newton round is proved (mpn_rootrem_newton_round_partial on the exact expression, "
+               "mpn_rootrem_internal_round on the model step: invariant preserved, no ASSERT_ALWAYS); the induction over the schedule "
+               "list, the bound ni <= 64 on its length, the approx exit and the dispatcher's padded call are differential "
+               "(ops mpn_rootrem_i / mpn_rootrem_i_norem against the model, model == iroot asserted on every op); RootremSpec stays a "
+               "hypothesis of the mpz-level theorems",
                "op mpn_rootrem_basecase calls __gmpn_rootrem_basecase directly at every size (the library uses it below ROOTREM_THRESHOLD limbs)"]
 
 def _iroot(n, u):
